@@ -55,6 +55,14 @@ fn seq_oracle() -> SeqOracle {
             return; // reported by the engine
         }
         let (b, a) = (run.before(), run.after());
+        // exactly what was requested, nothing else: every other key keeps its entry, its charge and its place in the expiry
+        // index (these caches are far larger than what is put into them, so nothing is evicted)
+        for e in b.store.iter().filter(|e| e.0 != k) {
+            let idx = |o: &Obs| { let mut v: Vec<(usize, u64)> = o.ttl.iter().filter(|t| t.1 == e.2).map(|t| (t.0, t.2)).collect(); v.sort(); v };
+            if a.entry(e.0) != Some(e) || a.weight_of_id(e.2) != b.weight_of_id(e.2) || idx(a) != idx(b) {
+                out.push(Finding::new("bystander-changed", "upsert:another-key-changed", format!("{} changed key {}: entry {:?} -> {:?}, weight {:?} -> {:?}, expiry index {:?} -> {:?}", c.op.short(), e.0, e, a.entry(e.0), b.weight_of_id(e.2), a.weight_of_id(e.2), idx(b), idx(a))));
+            }
+        }
         let st = run.statuses[i];
         let now = c.now_ms_inv;
         let (readable, specified) = model_read(b, k);
@@ -173,7 +181,7 @@ fn seq_oracle() -> SeqOracle {
     })
 }
 
-fn seq_spec(ctx: &Ctx, shards: usize, ttl_extra: i64) -> SeqSpec {
+fn seq_spec(ctx: &Ctx, shards: usize, ttl_extra: i64, bystander: bool) -> SeqSpec {
     let mut alphabet = vec![Op::Put { k: 1, w: Some(30), ttl_ms: None }, Op::Put { k: 1, w: Some(30), ttl_ms: Some(2000) }, Op::Put { k: 1, w: None, ttl_ms: Some(2000) }, Op::Delete { k: 1 }, Op::Advance { ms: 3000 }, Op::Advance { ms: 1000 }, Op::TickWait];
     alphabet.extend(shapes(1));
     // a TTL that is *shorter* than the one the key has (the other shapes extend it), with and without a value
@@ -184,20 +192,21 @@ fn seq_spec(ctx: &Ctx, shards: usize, ttl_extra: i64) -> SeqSpec {
     SeqSpec {
         // ttl_extra 24 mirrors the default weight calculation (a key with a TTL is charged for its expiry-index entry);
         // ttl_extra 0 is a custom weight function for which a TTL makes no difference
-        name: format!("seq/upsert-shapes-x-key-states/shards{}{}", shards, if ttl_extra == 24 { String::new() } else { format!("/weight-fn-ignores-ttl") }),
+        // bystander: another key was put with the same TTL at the same clock reading as key 1 may be (same expiry instant)
+        name: format!("seq/upsert-shapes-x-key-states/shards{}{}{}", shards, if ttl_extra == 24 { String::new() } else { format!("/weight-fn-ignores-ttl") }, if bystander { "/bystander-with-the-same-expiry" } else { "" }),
         setup: Setup { weight: 10_000, shards, buffer: 64, weight_fn: WeightFn::Const { c: 30, ttl_extra }, ..Setup::default() },
         world: Default::default(),
-        prefix: vec![],
+        prefix: if bystander { vec![Op::Put { k: 2, w: Some(30), ttl_ms: Some(2000) }] } else { vec![] },
         alphabet,
-        depth: if ctx.quick() { 7 } else { 9 },
+        depth: if ctx.quick() { if bystander { 5 } else { 7 } } else { if bystander { 7 } else { 9 } },
         allow: Some(Arc::new(|_h, present, a| match a {
             Op::Upsert { k, value: false, .. } => present.contains(k),
             _ => true,
         })),
         oracle: seq_oracle(),
-        keys: vec![1],
+        keys: if bystander { vec![1, 2] } else { vec![1] },
         canon_sketch: false,
-        ghost_key: Some(passed_over_key(vec![1])),
+        ghost_key: Some(passed_over_key(if bystander { vec![1, 2] } else { vec![1] })),
         max_states: 2_000_000,
         time_cap_s: if ctx.quick() { 25.0 } else { 600.0 },
     }
@@ -229,8 +238,7 @@ pub fn ilv_oracle() -> Oracle {
         }
         // an explicitly requested weight becomes the charged weight once acknowledged: when one thread is the
         // only writer of key 1 and all its calls are acknowledged, the last explicitly requested weight is charged
-        {
-            let k: K = 1;
+        for k in [1 as K, 2] {
             let writers: Vec<usize> = {
                 let mut w: Vec<usize> = run.calls.iter().filter(|c| c.thread < PHASE_INIT && c.op.key() == Some(k) && c.op.is_write()).map(|c| c.thread).collect();
                 w.sort();
@@ -350,6 +358,9 @@ fn ilv_programs() -> Vec<Program> {
     // TTL requests of one client while another client / the worker touches the same entry
     v.push(mk("upsert(ttl 500ms) || upsert(v)", vec![put_ttl(1, 30, 5000)], vec![vec![ups(false, None, Some(500), false)], vec![ups(true, None, None, false)]], false));
     v.push(mk("upsert(remove ttl,w) || upsert(v);upsert(v)", vec![put_ttl(1, 30, 5000)], vec![vec![ups(false, Some(30), None, true)], vec![ups(true, None, None, false), ups(true, None, None, false)]], false));
+    // weight requests for two different keys that happen to ask for the same weight, back to back
+    v.push(mk("upsert(a,w=50);upsert(b,v,w=50) unawaited", vec![put(1, 30), put(2, 21)], vec![vec![ups(false, Some(50), None, false), Op::Upsert { k: 2, value: true, w: Some(50), ttl_ms: None, remove_ttl: false }]], false));
+    v.push(mk("upsert(a,w=50) || upsert(b,w=50)", vec![put(1, 30), put(2, 21)], vec![vec![ups(false, Some(50), None, false)], vec![Op::Upsert { k: 2, value: false, w: Some(50), ttl_ms: None, remove_ttl: false }]], false));
     // two upserts of an absent key in flight at once behave like two puts: one is refused, nothing is charged twice
     v.push(mk("upsert(v,ttl 1s);upsert(v,ttl 5s) unawaited on an absent key", vec![], vec![vec![ups(true, Some(30), Some(1000), false), ups(true, Some(30), Some(5000), false)]], false));
     v.push(mk("put_ttl(1h) unawaited;upsert(ttl 10s)", vec![], vec![vec![Op::Put { k: 1, w: Some(30), ttl_ms: Some(3_600_000) }, ups(true, Some(30), Some(10_000), false)]], false));
@@ -361,9 +372,9 @@ pub fn def(ctx: &Ctx) -> PropertyDef {
     let quick = ctx.quick();
     let workers = ctx.workers;
     let mut scenarios: Vec<Scenario> = Vec::new();
-    for (shards, ttl_extra) in [(2usize, 24i64), (4, 24), (2, 0)] {
-        let name = seq_spec(ctx, shards, ttl_extra).name;
-        scenarios.push(seq_scenario(move |c| seq_spec(c, shards, ttl_extra), &name));
+    for (shards, ttl_extra, bystander) in [(2usize, 24i64, false), (4, 24, false), (2, 0, false), (2, 24, true)] {
+        let name = seq_spec(ctx, shards, ttl_extra, bystander).name;
+        scenarios.push(seq_scenario(move |c| seq_spec(c, shards, ttl_extra, bystander), &name));
     }
     for p in ilv_programs() {
         scenarios.push({
